@@ -157,6 +157,32 @@ def settle (c : Cfg) (yields : Raw → Bool) (s : Sys) : Sys :=
       settle c yields s1
 termination_by s.buf.length
 
+/-- the same loop had the read queue a capacity `cap > 0` (`asyncio.Queue(cap)`), up to the point where the reader
+    task suspends: `await put()` waits while `cap` frames are queued, and nothing behind the frame it holds is read
+    from the stream any more - in particular no alive-check request - until a consumer takes a frame.  `settle` above
+    uses that the queues of doip.py are unbounded (obligation `queues_unbounded` in `Proofs/C06.lean`, regenerated
+    from the code on every run): the reader task never waits for a consumer, and the re-queue of skipped frames
+    (`put_nowait` in `_requeue`) never fails.  Kept to state the witness `bounded_queue_starves_alive_check`. -/
+def settleBounded (cap : Nat) (c : Cfg) (yields : Raw → Bool) (s : Sys) : Sys :=
+  if s.closed then s else
+  match h : cut s.buf with
+  | none => clientRun c s
+  | some (raw, rest) =>
+    have hlt : rest.length < s.buf.length := cut_shrinks h
+    let full := (match classify raw with | .q _ => true | _ => false) && decide (0 < cap ∧ cap ≤ s.queue.length)
+    if full then clientRun c s
+    else
+      let s1 := deliver c { s with buf := rest } raw
+      if s1.closed then clientRun c s1
+      else if yields raw then
+        have : (clientRun c s1).buf.length < s.buf.length := by
+          rw [clientRun_buf, deliver_buf]; exact hlt
+        settleBounded cap c yields (clientRun c s1)
+      else
+        have : s1.buf.length < s.buf.length := by rw [deliver_buf]; exact hlt
+        settleBounded cap c yields s1
+termination_by s.buf.length
+
 /-- which timer of a pending call expires first: (absolute time, is it the caller's).  The caller's timer wins a tie:
     it was armed first. -/
 def expiry : Option Nat → Option Nat → Option (Nat × Bool)
